@@ -124,3 +124,57 @@ def gen_c05_table(rng, collide=False):
         entries = defs + [r for r in rules if r.dots is not None] + eq
     alphabet = letters * 3 + [32, 32, 46, 44, 49, 50]
     return entries, alphabet
+
+
+def gen_defs_table(rng, injective=True, big=False):
+    """Tables of single-cell character definitions (computer-braille style)."""
+    n = rng.range(150, 400) if big else rng.range(2, 40)
+    chars = set([32])
+    while len(chars) < n:
+        k = rng.below(4)
+        if k == 0:
+            chars.add(rng.range(33, 126))
+        elif k == 1:
+            chars.add(rng.range(0xa0, 0x2fff))
+        elif k == 2 and len(chars) > 1:
+            c = rng.choice(sorted(chars)) + 1123          # same character bucket
+            if c < 0xfffe:
+                chars.add(c)
+        else:
+            chars.add(rng.range(0x3000, 0xfffd))
+    chars = sorted(chars)
+    rng.shuffle(chars)
+    eight = rng.chance(0.5)
+    wide = rng.chance(0.2)
+    cells = set()
+    while len(cells) < n:
+        if wide:
+            c = rng.range(1, 0x7ffe)
+            cells.add(c)
+            if c + 1123 < 0x7fff and rng.chance(0.3):
+                cells.add(c + 1123)                        # same cell bucket
+        else:
+            cells.add(rng.range(1, 255 if eight or n > 60 else 63))
+        if not wide and len(cells) >= (255 if eight or n > 60 else 63):
+            break
+    cells = sorted(cells)
+    rng.shuffle(cells)
+    m = min(len(chars), len(cells))
+    chars, cells = chars[:m], cells[:m]
+    entries = []
+    for c, d in zip(chars, cells):
+        if c == 32:
+            entries.append(Entry("space", [32], [0 if 0 not in cells else d]))
+        else:
+            entries.append(Entry(rng.choice(["letter", "lowercase", "uppercase", "punctuation", "digit", "sign", "math"]), [c], [d]))
+    if not injective:
+        for _ in range(rng.range(1, 4)):
+            e = rng.choice(entries)
+            k = rng.below(3)
+            if k == 0:      # another character on the same cell
+                entries.insert(rng.below(len(entries) + 1), Entry(rng.choice(["letter", "sign"]), [rng.range(0x100, 0x3000)], list(e.dots)))
+            elif k == 1:    # the same character on another cell
+                entries.insert(rng.below(len(entries) + 1), Entry(rng.choice(["letter", "punctuation"]), list(e.chars), [rng.range(1, 255)]))
+            else:           # exact duplicate
+                entries.insert(rng.below(len(entries) + 1), Entry(e.op, list(e.chars), list(e.dots)))
+    return entries
